@@ -99,6 +99,7 @@ type Exec struct {
 	retN   int
 	safeN  int
 	coverN int
+	skippedPaths []string
 	skipped int // obligations not generated because of an `only` clause
 	results []*types.Var
 	inputs []ModelVar
@@ -1190,7 +1191,39 @@ func (ex *Exec) execBlock(st *State, stmts []ast.Stmt) *Flow {
 	return fl
 }
 
-func (ex *Exec) execStmt(st *State, s ast.Stmt) *Flow {
+func (ex *Exec) execStmt(st *State, s ast.Stmt) (fl *Flow) {
+	if ex.fc != nil && len(ex.fc.Skips) > 0 {
+		defer func() {
+			if r := recover(); r != nil {
+				u, ok := r.(unsupportedErr)
+				if !ok {
+					panic(r)
+				}
+				p := ex.w.Fset.Position(s.Pos())
+				pe := ex.w.Fset.Position(s.End())
+				for k, sk := range ex.fc.Skips {
+					var file string
+					var line int
+					if i := strings.LastIndex(sk, ":"); i > 0 {
+						file = sk[:i]
+						fmt.Sscan(sk[i+1:], &line)
+					}
+					if strings.HasSuffix(p.Filename, file) && p.Line <= line && line <= pe.Line {
+						// the innermost statement containing the line handles it
+						if _, isBlockish := s.(*ast.BlockStmt); isBlockish {
+							break
+						}
+						ex.notes = append(ex.notes, fmt.Sprintf("PATH NOT VERIFIED at %s (%s): %s", sk, u.msg, ex.fc.SkipWhy[k]))
+						ex.skippedPaths = append(ex.skippedPaths, sk+": "+ex.fc.SkipWhy[k])
+						ex.assume(st, tFalse)
+						fl = &Flow{normal: nil}
+						return
+					}
+				}
+				panic(r)
+			}
+		}()
+	}
 	switch s := s.(type) {
 	case *ast.BlockStmt:
 		return ex.execBlock(st, s.List)
@@ -1898,6 +1931,19 @@ func (ex *Exec) execRange(st *State, s *ast.RangeStmt) *Flow {
 		}
 	}
 	head.vars[keyObj] = tv(ex.fresh("i", SInt), types.Typ[types.Int])
+	if ex.iterState {
+		for _, k := range []string{"seen", "stopped"} {
+			if cur, ok := head.ghost[k]; ok {
+				head.ghost[k] = tv(ex.fresh(k, cur.T.S), nil)
+			}
+		}
+	}
+	for k, cur := range head.ghost {
+		if strings.HasPrefix(k, "*") {
+			head.ghost[k] = tv(ex.fresh("cell_"+k[1:], cur.T.S), cur.GoT)
+		}
+	}
+	ex.havocHeap(head, s)
 	ex.assume(head, rangeInv(head))
 	for _, inv := range ls.Invariants {
 		ex.assume(head, ex.specBoolWith(head, inv.E, map[string]*Val{"$i": head.vars[keyObj]}))
@@ -1905,9 +1951,16 @@ func (ex *Exec) execRange(st *State, s *ast.RangeStmt) *Flow {
 	iT := head.vars[keyObj].T
 	exitSt := head.clone()
 	ex.assume(exitSt, tEq(iT, length))
+	for _, u := range ls.Uses {
+		ex.applyLemma(exitSt, u, map[string]*Val{"$i": head.vars[keyObj]})
+	}
 	bodySt := head.clone()
 	ex.assume(bodySt, mk("<", SBool, iT, length))
 	bodySt.ghost["$i"] = head.vars[keyObj]
+	ex.coverPoint(bodySt, "loopbody", ex.pos(s))
+	for _, u := range ls.BeginUses {
+		ex.applyLemma(bodySt, u, map[string]*Val{"$i": head.vars[keyObj]})
+	}
 	if id, ok := s.Value.(*ast.Ident); ok && id.Name != "_" {
 		vobj := ex.info.ObjectOf(id)
 		var ev *Val
@@ -1930,6 +1983,9 @@ func (ex *Exec) execRange(st *State, s *ast.RangeStmt) *Flow {
 	back := ex.merge(append([]*State{f.normal}, f.continues...))
 	if back != nil {
 		back.vars[keyObj] = tv(mk("+", SInt, iT, intLit(1)), types.Typ[types.Int])
+		for _, u := range ls.Uses {
+			ex.applyLemma(back, u, map[string]*Val{"$i": back.vars[keyObj]})
+		}
 		for i, inv := range ls.Invariants {
 			g := ex.specBoolWith(back, inv.E, map[string]*Val{"$i": back.vars[keyObj]})
 			ex.oblige(back, "inv.preserve", fmt.Sprintf("inv.loop%d.preserve.%s", n, clauseName(inv, i)), g, inv.Src)
